@@ -78,7 +78,11 @@ impl Debug for ConnectionMeta {
                    channel: {:?}, \
                    sni_auth_creds: {:?} \
                }}",
-            sni_ref, self.protocol, self.channel, self.sni_auth_creds,
+            sni_ref,
+            self.protocol,
+            self.channel,
+            // the credentials are what the scrubbing of the SNI above is for
+            self.sni_auth_creds.as_ref().map(|_| "scrubbed"),
         )
     }
 }
